@@ -947,7 +947,7 @@ Proof.
   intros IH q l tg F. destruct (scases q) as [[-> E]|[N E]]; rewrite E in *.
   - destruct (filt (gp g p) FReady l tg) eqn:F0.
     + destruct (IH _ _ _ F0) as [Y|(m & I & X)]; auto. right. exists m. auto.
-    + destruct Q3 as (_ & _ & _ & _ & Fc). destruct (Fc _ _ F0 F) as (m & Eo & Tm & Am & _).
+    + destruct Q3 as (_ & _ & _ & _ & Fc & _). destruct (Fc _ _ F0 F) as (m & Eo & Tm & Am & _).
       destruct (can_recv_spec g p l m (CR l m Eo)) as (_ & [Y|I]); auto. right. exists m. auto.
   - destruct (IH _ _ _ F) as [Y|(m & I & X)]; auto. right. exists m. auto.
 Qed.
@@ -980,7 +980,7 @@ Proof.
   intros I0 IH q tg d TL. destruct (scases q) as [[-> E]|[N E]]; rewrite E in *.
   - destruct (IH p tg d TL) as (L & ND & Len & AF & AC).
     pose proof Q as Q0. destruct Q0 as (Fm & _ & Cr & _).
-    pose proof Q3 as Q30. destruct Q30 as (_ & _ & _ & _ & Fc).
+    pose proof Q3 as Q30. destruct Q30 as (_ & _ & _ & _ & Fc & _).
     (* a peer whose filter is set after the step, not faulty, and that sent ready(tg,d): old filter -> already in L *)
     assert (OLD : forall l, filt (gp g p) FReady l tg = true -> byz l = false -> sent_ready g' l p tg d -> In l L).
     { intros l F0 Nb (m & Im & Tm & Am & Pm). apply AC; auto.
@@ -1040,6 +1040,33 @@ Proof.
   intros es. apply (grun_ind n t skip H toolong byz (fun g => INV g /\ INV3 g)).
   - split; [exact INV_init|exact INV3_init].
   - intros g e [I I3]. split; [apply INV_step; exact I|apply INV3_step; auto].
+Qed.
+
+(* an echo quorum makes a party send r-ready unless it already had t+1 readys (the t = 0 case of the ready rule) *)
+Definition G2e (g : gst) := forall q tg d, n - t <= ed (gp g q) tg d ->
+  (exists dst, sent_ready g q dst tg d) \/ t + 1 <= rd (gp g q) tg d.
+
+Lemma G2e_step : forall g e, G2e g -> G2e (gstep g e).
+Proof.
+  intros g e IH.
+  destruct (gstep_cases3 g e) as [E|(p & st' & out & r & offer & Hp & Q & Q3 & CR & E1 & E2 & E3)]; [rewrite E; exact IH|].
+  intros q tg d C.
+  assert (MONO : forall q0 dst, sent_ready g q0 dst tg d -> sent_ready (gstep g e) q0 dst tg d).
+  { intros q0 dst (m & I & X). exists m. split; auto. rewrite E2. apply in_or_app. auto. }
+  destruct (state_cases g (gstep g e) p st' E1 q) as [[-> E]|[N E]]; rewrite E in *.
+  - destruct Q3 as (_ & _ & _ & _ & _ & Et). destruct Q as (_ & _ & Cr & _).
+    assert (RM : rd (gp g p) tg d <= rd st' tg d).
+    { destruct (Cr tg d) as [X|(? & ? & _ & _ & _ & _ & _ & X & _)]; lia. }
+    destruct (Et tg d C) as [C0|[(dst & x & I & Tx & Ax & Px)|C0]]; auto.
+    + destruct (IH _ _ _ C0) as [(dst & S)|R]; [left; exists dst; apply MONO; exact S|right; lia].
+    + left. exists dst, x. split; auto. rewrite E2. apply in_or_app. right. unfold tagged. apply in_map_iff. exists (dst, x). auto.
+  - destruct (IH _ _ _ C) as [(dst & S)|R]; [left; exists dst; apply MONO; exact S|right; exact R].
+Qed.
+
+Theorem G2e_run : forall es, G2e (run es).
+Proof.
+  intros es. apply (grun_ind n t skip H toolong byz G2e); [|exact G2e_step].
+  intros q tg d C. unfold ginit, pinit in C. cbn [gp ed] in C. lia.
 Qed.
 
 (* every r-ready an honest party sent has been handed over to its honest receivers *)
@@ -1925,13 +1952,14 @@ Proof.
 Qed.
 
 (* VALIDITY, first part: every honest party attempts the delivery of every slot an honest sender broadcast *)
-Lemma slot_TD : 0 < t -> forall g, ALL g -> handed_over g -> forall j dst s v, hon j ->
+Lemma slot_TD : forall g, ALL g -> G2e g -> handed_over g -> forall j dst s v, hon j ->
   In (j, dst, Msg 0 j s 1 v) (gsent g) -> forall q, hon q -> TD g q (0, j, s).
 Proof.
-  intros T0 g A HO j dst s v Hj Im q Hq.
+  intros g A A2e HO j dst s v Hj Im q Hq.
   pose proof A as (I & I2 & (A0 & A1 & A2 & A3 & A4) & (NSg & _ & K1g & K2g & _ & U0g & U1g & U2g) & (K5g & G0eg & G4eg & _)).
   set (tg := (0, j, s)). set (d := H v).
   assert (Nbj : byz j = false). { unfold honest in Hj. b2p. destruct (byz j); auto; discriminate. }
+  assert (Nbq : byz q = false). { unfold honest in Hq. b2p. destruct (byz q); auto; discriminate. }
   assert (RANGE : forall q', hon q' -> 0 <= q' < n). { intros q' Hq'. unfold honest, is_party in Hq'. b2p. lia. }
   (* (a) the r-send went to everybody *)
   assert (SA : forall i, 0 <= i < n -> In (j, i, Msg 0 j s 1 v) (gsent g)).
@@ -1945,10 +1973,9 @@ Proof.
     assert (v1 = v); [|subst; exact E1].
     rewrite <- Pm1. eapply (U1g j _ m1 _ (Msg 0 j s 1 v)); eauto. }
   assert (TL : toolong tg d = false) by apply toolong_ok.
-  (* (c) every honest party has the echo quorum, (d) hence sent r-ready *)
-  assert (RS : forall q', hon q' -> exists dst', sent_ready g q' dst' tg d).
-  { intros q' Hq'. apply A2; auto. right.
-    destruct (G4eg q' tg d TL) as (L & ND & Len & AF & AC).
+  (* (c) every honest party has the echo quorum *)
+  assert (ED : forall q', hon q' -> n - t <= ed (gp g q') tg d).
+  { intros q' Hq'. destruct (G4eg q' tg d TL) as (L & ND & Len & AF & AC).
     assert (INC : incl (filter notB (range n)) L).
     { intros l J. apply filter_In in J. destruct J as [J NB]. apply notB_spec in NB. apply range_in in J.
       assert (Hl : hon l) by (apply honest_of; auto).
@@ -1959,31 +1986,35 @@ Proof.
       apply AC; auto. exists e. auto. }
     apply NoDup_incl_length in INC; [|apply NoDup_filter; apply range_nodup].
     pose proof All_length. lia. }
-  (* (e) every honest party has the ready quorum, (f) hence fixed the digest *)
+  (* (d)-(e) the ready quorum *)
   destruct (A4 q tg d TL) as (L & ND & Len & AF & AC).
-  assert (INC : incl (filter notB (range n)) L).
-  { intros l J. apply filter_In in J. destruct J as [J NB]. apply notB_spec in NB. apply range_in in J.
-    assert (Hl : hon l) by (apply honest_of; auto).
-    assert (Nbl : byz l = false). { destruct (byz l) eqn:Y; auto. exfalso; auto. }
-    destruct (RS l Hl) as (dst' & x & Ix & Tx & Ax & Px).
+  assert (CNT : forall l, hon l -> (exists dst', sent_ready g l dst' tg d) -> In l L).
+  { intros l Hl (dst' & x & Ix & Tx & Ax & Px).
+    assert (Nbl : byz l = false). { unfold honest in Hl. b2p. destruct (byz l); auto; discriminate. }
     pose proof (A1 _ _ _ Ix Ax q (RANGE q Hq)) as Iq.
     pose proof (HO _ _ _ Iq Hq) as F. rewrite Ax, Tx in F. cbn in F. specialize (F ltac:(lia)).
     apply AC; auto. exists x. auto. }
-  apply NoDup_incl_length in INC; [|apply NoDup_filter; apply range_nodup].
-  pose proof All_length as AL.
-  assert (R2 : 2 * t + 1 <= rd (gp g q) tg d) by lia.
+  assert (R2 : 2 * t + 1 <= rd (gp g q) tg d).
+  { destruct (Z_lt_le_dec 0 t) as [T0|T0].
+    - assert (INC : incl (filter notB (range n)) L).
+      { intros l J. apply filter_In in J. destruct J as [J NB]. apply notB_spec in NB. apply range_in in J.
+        assert (Hl : hon l) by (apply honest_of; auto). apply CNT; auto. apply A2; auto. right. apply ED. exact Hl. }
+      apply NoDup_incl_length in INC; [|apply NoDup_filter; apply range_nodup].
+      pose proof All_length as AL. lia.
+    - assert (T0' : t = 0) by lia. destruct (A2e q tg d (ED q Hq)) as [S|R]; [|lia].
+      pose proof (CNT q Hq S) as Jq. destruct L as [|a r]; [contradiction|]. cbn [length] in Len. lia. }
   pose proof (A3 _ _ _ R2) as NN. destruct (dbar (gp g q) tg) as [d'|] eqn:Dq; [|congruence].
   (* (g) payload retrieval / delivery attempt *)
   eapply dbar_TD; eauto.
 Qed.
 
 (* VALIDITY on the FIFO root channel: every broadcast of an honest sender has been delivered by every honest party *)
-Theorem validity_at_quiescence : 0 < t -> forall es, forallb noswitch es = true ->
+Theorem validity_at_quiescence : forall es, forallb noswitch es = true ->
   handed_over (run es) -> buffers_drained (run es) ->
   forall j dst s v, hon j -> In (j, dst, Msg 0 j s 1 v) (gsent (run es)) ->
   forall q, hon q -> In (q, (0, j, s), v) (glog (run es)).
 Proof.
-  intros T0 es NSes HO BD j dst s v Hj Im q Hq. pose proof (ALL_run es NSes) as A. set (g := run es) in *.
+  intros es NSes HO BD j dst s v Hj Im q Hq. pose proof (ALL_run es NSes) as A. pose proof (G2e_run es) as A2e. set (g := run es) in *.
   pose proof A as (I & (_ & _ & _ & _ & J8bg) & _ & (NSg & _ & _ & _ & _ & U0g & U1g & U2g) & _).
   assert (Nbj : byz j = false). { unfold honest in Hj. b2p. destruct (byz j); auto; discriminate. }
   destruct (U2g j) as (_ & Al).
@@ -1992,7 +2023,7 @@ Proof.
   { induction k as [|k IHk]; intros s0 Sk Rs; [lia|].
     destruct (Al s0 Rs) as (v0 & Av).
     apply (TD_delivered g A BD q j s0 Hq); [lia| |].
-    - eapply (slot_TD T0 g A HO j 0 s0 v0); eauto. apply Av. unfold honest, is_party in Hq. b2p. lia.
+    - eapply (slot_TD g A A2e HO j 0 s0 v0); eauto. apply Av. unfold honest, is_party in Hq. b2p. lia.
     - intros s' Rs'. apply IHk; lia. }
   destruct (U0g _ _ _ Im eq_refl) as (_ & _ & Rs). cbn in Rs.
   destruct (EX (Z.to_nat s) s (le_n _) Rs) as (v' & Iq).
